@@ -2,5 +2,5 @@
 # regression: every claimed property on the current tree
 cd /verif
 for p in $(python3 -c "import json; print(' '.join(c['property_id'] for c in json.load(open('MANIFEST.json'))['checks']))"); do
-  ./check $p "$@" 2>&1 | grep -E "^VIOLATION|^KNOWN|^property" | sed 's/replay=[^ ]* //' | cut -c1-220
+  ./check $p "$@" 2>&1 | grep -E "^VIOLATION|^KNOWN|^UNDECIDED|^property" | sed 's/replay=[^ ]* //' | cut -c1-220
 done
